@@ -193,6 +193,49 @@ theorem gapsThenReals_gaps (d : Int) : GapsThenReals (gaps d) := by
 
 theorem length_gaps (d : Int) : (gaps d).length = 7 := by simp [gaps, llGapCount]
 
+/-! ### finalized segments tile the timeline -/
+
+/-- start DTS of the first real entry of `l`, or `e` when there is none -/
+def firstStart : List Entry → Int → Int
+  | [], e => e
+  | .seg g :: _, _ => g.startDTS
+  | .gap _ :: r, e => firstStart r e
+
+/-- every listed real segment ends where the next one (or, for the last, the open segment starting at `e`) starts -/
+def Tiled : List Entry → Int → Prop
+  | [], _ => True
+  | .gap _ :: r, e => Tiled r e
+  | .seg g :: r, e => g.endDTS = firstStart r e ∧ Tiled r e
+
+theorem Tiled.tail {x : Entry} {r : List Entry} {e : Int} (h : Tiled (x :: r) e) : Tiled r e := by
+  cases x with
+  | gap d => exact h
+  | seg g => exact h.2
+
+theorem firstStart_append_seg (l : List Entry) (g : Seg) (d : Int) :
+    firstStart (l ++ [.seg g]) d = firstStart l g.startDTS := by
+  induction l with
+  | nil => rfl
+  | cons x r ih =>
+    cases x with
+    | gap _ => exact ih
+    | seg _ => rfl
+
+theorem Tiled.append_seg {l : List Entry} {e : Int} (h : Tiled l e) (g : Seg) (hs : g.startDTS = e) :
+    Tiled (l ++ [.seg g]) g.endDTS := by
+  induction l with
+  | nil => exact ⟨rfl, trivial⟩
+  | cons x r ih =>
+    cases x with
+    | gap _ => exact ih h
+    | seg g' =>
+      refine ⟨?_, ih h.2⟩
+      show g'.endDTS = firstStart (r ++ [.seg g]) g.endDTS
+      rw [firstStart_append_seg, hs]; exact h.1
+
+theorem tiled_gaps (d e : Int) : Tiled (gaps d) e := by
+  simp [gaps, llGapCount, List.replicate, Tiled]
+
 /-! ### counting -/
 
 theorem length_le_of_nodup_subset {α} [DecidableEq α] :
